@@ -56,7 +56,7 @@ def generate(rng, run, tier):
     plan.pop("interleave", None)
     plan["consumer"] = rng.choice(["flat", "flat", "grouped"])
     plan["all_offsets_up_to"] = 800 if tier == "quick" else 3000
-    plan["frontend"] = rng.choice(["bytesio", "raw", "buffered", "duck", "rwpair"])
+    plan["frontend"] = rng.choice(["bytesio", "raw", "buffered", "duck", "rwpair", "greedy", "strict"])
     plan["fault"] = "cut" if plan["frontend"] == "bytesio" else rng.choice(["cut", "reset"])
     return plan
 
